@@ -133,7 +133,7 @@ Commit(ops, ok) ==
 ClaimResult(es) == IF es = <<>> THEN "none"
                    ELSE IF es[1].owner = NoOwner \/ ~es[1].lease THEN "claimed" ELSE "busy"
 \* es = the entries as the claim statement sees them (trace validation passes the entries with their
-\* leases expired when the wall clock, which is not logged, must have passed claim_until)
+\* leases expired when the wall clock has, or may have, passed claim_until - see PartOutboxTrace!TClaim)
 ClaimOn(es, w) ==
   /\ pc[w] = "idle"
   /\ IF ClaimResult(es) = "claimed"
